@@ -193,9 +193,12 @@ def _udp(exe, r, run, stats, w, sim, wit):
         # (room for the whole run: a sender that has used up its 2^40 sequence numbers rightly
         # refuses to send, which is not what the canary at the end is about)
         osc["start"] = min(osc["start"], 2 ** 40 - 100000)
+        b12srv = r.random() < 0.3
+        b2srv = r.random() < 0.4
+        wit["oscore_server_appendix_b2"] = b2srv
         sim.cmd("oscore_server 1 %s" % c14.conf_text(osc["secret"], osc["salt"], osc["server_id"],
                                                      osc["client_id"], osc["idctx"],
-                                                     r.random() < 0.3, b2=r.random() < 0.4))
+                                                     b12srv, b2=b2srv))
     sim.cmd("ep 1 udp %s" % SRV)
     # (attributes with several values: discovery requests with rt=/if= filters walk them)
     sim.cmd("res 1 %s body=fixed:%s attr=%s:%s,%s:%s" % (
@@ -335,7 +338,11 @@ def _udp(exe, r, run, stats, w, sim, wit):
         ok3 = [e for e in sim.log if e["e"] == "rsp" and e.get("n") == 0 and e["tok"] == "ca03"
                and e["code"] == 69 and e.get("phex") == BODY.hex()]
         if not ok3:
-            run.violation("canary-failed/oscore-session", dict(wit, classes=sorted(classes)),
+            # (a server that does Appendix B.2 is a configuration of its own: a recorded finding
+            # lives there, see DESIGN 7.3 - the signature says which kind of server it was)
+            run.violation("canary-failed/oscore-session" + (
+                "/server-with-appendix-b2" if wit.get("oscore_server_appendix_b2") else ""),
+                dict(wit, classes=sorted(classes)),
                           "after the hostile input a protected GET of the genuine OSCORE client "
                           "was not answered 2.05 with the resource body")
     m = got.get(b"\xca\x01")
